@@ -16,7 +16,7 @@ RULE = ('generated models and gradients, lr constant or callable, kl_clip consta
         'all-zero gradient steps; simulated worlds of 2-4 ranks under every gradient-worker count; GPT-NeoX sharded runs (see C11) for the shared-scalar clause; '
         'non-trivial: clip active (expected nu < 0.9) or kl_clip None while the formula would clip; distinct = hash(model, config)')
 ASSUMPTIONS = ['factors are read from state_dict() after the step (inv_update_steps | factor_update_steps, constant damping)',
-               'optional probe: the value returned by _compute_grad_scale is compared too when that attribute exists (counted; zero probes is acceptable)']
+               'the value returned by the private _compute_grad_scale is recorded as information only (probe_checks, probe_disagreements_info); it decides nothing']
 REQUIRED = ['nu_checks', 'none_checks', 'zero_grad_checks', 'world_nu_checks']
 
 
@@ -63,10 +63,11 @@ def check_step(res, case, cfg, D, R, fac, lam, kl, lr, tag, probe=None):
         res.violation(f'{tag}: nu^2 lr^2 |sum<V,D>| = {nu_fit ** 2 * lr ** 2 * abs(vd):.6g} exceeds kl_clip={kl}', case)
         return False
     if probe is not None:
+        # information only: the return convention of a private method is not part of the property (an equivalent refactor that
+        # clamps in step() instead was flagged by this probe during the site audit); every real violation shows in nu_fit above
         res.count('probe_checks')
         if not abs(probe - nu_exp) <= tol * nu_exp:
-            res.violation(f'{tag}: _compute_grad_scale returned {probe}, expected {nu_exp}', case)
-            return False
+            res.count('probe_disagreements_info')
     return nu_exp
 
 
@@ -154,8 +155,6 @@ def run_single(rng, res, idx):
                 res.count('zero_grad_checks')
                 if any(not torch.isfinite(R[n]).all() or float(R[n].abs().max()) != 0 for n in R):
                     return res.violation(f'step {st}: all-zero gradients did not give an all-zero finite result', case)
-                if probes and probes[-1] != 1.0:
-                    return res.violation(f'step {st}: zero inner product must give nu = 1, _compute_grad_scale returned {probes[-1]}', case)
                 continue
             out = check_step(res, case, cfg, D, R, s.factors(), lam, kl, lr, f'step {st}', probes[-1] if probes else None)
             if out is False:
